@@ -882,6 +882,12 @@ func (e *Env) callExpr(n *ast.CallExpr) (Val, types.Type) {
 			sub.vars[p.Name] = v
 			sub.types[p.Name] = t
 		}
+		if e.old != nil {
+			// old(...) inside the body reads the old heap with the same parameter values
+			o := *e.old
+			o.vars, o.types, o.pkg = sub.vars, sub.types, sub.pkg
+			sub.old = &o
+		}
 		ex, err := sub.parse(sf.Body)
 		if err != nil {
 			panic(err.Error())
@@ -1090,6 +1096,11 @@ func (e *Env) expandConjuncts(src string, depth int) (out []namedTerm, err error
 						}
 						sub.vars[p.Name] = v
 						sub.types[p.Name] = t
+					}
+					if e.old != nil {
+						o := *e.old
+						o.vars, o.types, o.pkg = sub.vars, sub.types, sub.pkg
+						sub.old = &o
 					}
 					for _, part := range parts {
 						inner, err := sub.expandConjuncts(part, depth+1)
